@@ -7,7 +7,7 @@ import TakVerif.Impl.ThreatHyp
 namespace Driver
 open Tak Codec
 
-def fmtInts (l : List Int) : String := ",".intercalate (l.map toString)
+private def fmtInts (l : List Int) : String := ",".intercalate (l.map toString)
 
 def fmtRInt : R Int → String
   | .ok v => toString v
